@@ -1464,9 +1464,9 @@ theorem fad_descendant (re : Bool) {name : Str} (hn : PlainKey name) (c : Cls) (
 
 /-- **every key of a result spells the position of its value** -/
 theorem fad_findall_spells (c : Cls) (kvs : List (Str × Val)) (hko : KeysOkV (.dict c kvs)) (e : Str)
-    (fuel : Nat) (f : Found)
-    (h : (findallTop fuel fresh (.dict c kvs) e).res = .ok (some f)) : FadRes (.dict c kvs) f :=
-  fad_fa_ok ⟨c, kvs, rfl⟩ hko true fuel _ _ _ _ [] (FadInv.start _) f h
+    (fuel : Nat) (f : Found) (re : Bool := true)
+    (h : (findallTop fuel fresh (.dict c kvs) e re).res = .ok (some f)) : FadRes (.dict c kvs) f :=
+  fad_fa_ok ⟨c, kvs, rfl⟩ hko re fuel _ _ _ _ [] (FadInv.start _) f h
 
 /-- item access on `'//'` returns the root -/
 theorem fad_getItem_root (fuel : Nat) (c : Cls) (kvs : List (Str × Val)) :
